@@ -65,3 +65,13 @@ func verifLoadBegin(s *Syncer, instance string, update *snapshot.Update) {
 		VerifLoadBegin(s, instance, update)
 	}
 }
+
+// VerifNoteTxn, when set, receives the id Lightning Stream's own transaction was opened with,
+// right before the yield point that follows that transaction.
+var VerifNoteTxn func(s *Syncer, txnID header.TxnID)
+
+func verifNoteTxn(s *Syncer, txnID header.TxnID) {
+	if VerifNoteTxn != nil {
+		VerifNoteTxn(s, txnID)
+	}
+}
